@@ -229,6 +229,7 @@ def plan(tier):
     for p in range(16):
         shards.append({"kind": "hist", "part": p, "parts": 16})
     shards.append({"kind": "from-types"})
+    shards += [{"kind": "scale", "part": p, "parts": 8} for p in range(8)]
     return shards
 
 
@@ -261,6 +262,19 @@ def cases(shard, tier):
         for i, t in enumerate(trees(shard["depth"])):
             if i % shard["parts"] == shard["part"]:
                 yield {"kind": "tree", "tree": t, "tier": tier}
+    elif kind == "scale":
+        cs = []
+        for t in (["cat", [leaf([1, 2]), ["rng", leaf([3, 7]), 5]]], ["pad", ["rep", leaf([5, 6, 7, 11]), 3], 3], ["uni", [["rep", leaf([8, 12, 16]), 2**31], leaf([1])]], ["rng", ["cat", [leaf([1, 2]), leaf([0, 8])]], 2**63]):
+            cs.append({"kind": "scale", "what": "many-divisors", "tree": t, "n": 300})
+        for lf in ([257, 771], [8, 24], [1, 2], [3, 7, 12], [100, 613]):
+            for k in (1025, 1500, 2049, 4097, 2**31 + 7):
+                for d in (513, 771, 1024, 1028, 1543, 2048):
+                    cs.append({"kind": "scale", "what": "large-count-and-divisor", "leaf": lf, "k": k, "d": d})
+        for n in (17, 18, 24, 33, 40, 64, 100):
+            cs.append({"kind": "scale", "what": "large-leaves", "n": n})
+        for i, c in enumerate(cs):
+            if i % shard["parts"] == shard["part"]:
+                yield c
     elif kind == "from-types":
         for g in range(4):
             yield {"kind": "from-types", "what": "union", "group": g}
@@ -512,7 +526,62 @@ def check_from_types(case, R):
     R.outcome("from-types")
 
 
+def check_scale(case, R):
+    """Beyond small scope: hundreds of divisors asked of ONE object, counts and divisors in the thousands, leaves of dozens of elements."""
+    what = case["what"]
+    if what == "many-divisors":
+        t = case["tree"]
+        b = build(t)
+        first = {}
+        order = list(range(1, case["n"] + 1))
+        for rnd in range(2):
+            for d in (order if rnd == 0 else order[:40] + order[-5:]):
+                got = sorted(b % d)
+                R.counters["queries"] += 1
+                if rnd == 0:
+                    first[d] = got
+                exp = sorted(ref.residues(t, d))
+                if got != exp or b.is_aligned_at(d) != (exp == [0]):
+                    _viol(R, "residues-after-many-divisors", "% d is exact, however many other divisors were asked of the same object before", {**case, "d": d, "round": rnd}, got, exp)
+                    return
+        R.case(case, nontrivial=True, sample=False)
+        R.outcome("scale")
+        return
+    if what == "large-count-and-divisor":
+        lf, k, d = case["leaf"], case["k"], case["d"]
+        for op in ("rep", "rng"):
+            t = [op, leaf(lf), k]
+            with engine.deadline(60):
+                got = sorted(build(t) % d)
+            exp = sorted(ref.residues(t, d))
+            R.case([case, op], nontrivial=True, sample=False)
+            if got != exp:
+                _viol(R, "residues-%s-large-count-and-divisor" % op, "% d of a repetition equals the k-fold sumset residues for counts and divisors in the thousands as well", {**case, "op": op}, got[:20], exp[:20])
+                return
+        R.outcome("scale")
+        return
+    # large leaves: two leaves of n elements that agree in their smallest and largest few elements and in their size, differ in the middle
+    n = case["n"]
+    a = [8 * i for i in range(n)]
+    bb = list(a)
+    bb[n // 2] += 4
+    ta, tb = leaf(a), leaf(bb)
+    for t in (["uni", [ta, tb]], ["uni", [tb, ta, leaf([1])]], ["cat", [["uni", [ta, tb]], leaf([0, 1])]], ["pad", ["uni", [ta, tb]], 16], ["uni", [["rep", ta, 2], ["rep", tb, 2]]]):
+        b = build(t)
+        E = ref.expand(t)
+        R.case([case, t[0]], nontrivial=True, sample=False)
+        got = {"min": b.min, "max": b.max, "len": len(b), "set": sorted(b), "%8": sorted(b % 8), "%5": sorted(b % 5), "al8": b.is_aligned_at(8)}
+        exp = {"min": min(E), "max": max(E), "len": len(E), "set": sorted(E), "%8": sorted({x % 8 for x in E}), "%5": sorted({x % 5 for x in E}), "al8": all(x % 8 == 0 for x in E)}
+        if got != exp:
+            bad = sorted(k for k in exp if got[k] != exp[k])
+            _viol(R, "large-leaves-" + t[0], "operands with dozens of elements are combined exactly", {**case, "tree_root": t[0]}, {k: (got[k] if k != "set" else len(got[k])) for k in bad}, {k: (exp[k] if k != "set" else len(exp[k])) for k in bad})
+            return
+    R.outcome("scale")
+
+
 def check_case(case, R):
+    if case["kind"] == "scale":
+        return check_scale(case, R)
     if case["kind"] == "from-types":
         return check_from_types(case, R)
     k = case["kind"]
